@@ -374,6 +374,9 @@ func (ex *Exec) load(p PtrV) Value {
 	if p.obj == nil {
 		ex.goPanicRuntime("nil pointer dereference")
 	}
+	if ex.curThread != 0 {
+		ex.raceAccess('R', p)
+	}
 	v := p.obj.v
 	for _, i := range p.path {
 		switch x := v.(type) {
@@ -396,6 +399,12 @@ func (ex *Exec) store(p PtrV, nv Value) {
 		ex.goPanicRuntime("nil pointer dereference")
 	}
 	nv = copyAgg(nv)
+	if ex.curThread != 0 {
+		ex.raceAccess('W', p)
+		if ex.traced[p.obj] {
+			ex.markTraced(nv)
+		}
+	}
 	if len(p.path) == 0 {
 		p.obj.v = nv
 		return
